@@ -349,6 +349,69 @@ CHECKS = {
         design="DESIGN.md section 3, C17", engine="E1 enumerate"),
 }
 
+# axes added after the fifth wave of independently seeded changes (tools/notes/CNN-wave5.md); appended to the level text
+WAVE5 = {
+    "C01": "key-type mix: schema, a sibling section type and the container under test carry key types from {no attribute, "
+           "basic-key, identifier, ipaddr-or-hostname} in every combination (16 pairs quick / 64 triples thorough), key "
+           "tokens = one representative of each of the 2^3 membership classes of the three key-type languages plus a case "
+           "variant, searched breadth-first like the main family (history: spellings met earlier by another key type while "
+           "the schema was parsed, earlier in the text, in an earlier load).",
+    "C02": "spelling axes judged by the same oracle: section names (every code point some case mapping moves x 5 contexts x "
+           "both header forms; every string of length <= 2 (3) over one representative per case-behaviour class), values per "
+           "datatype over character-class alphabets (upper and lower case wherever letters can occur) in 8 value roles (key, "
+           "multikey, '+' key, '+' multikey, each from the text and as a schema default), declared key names <= 4 over "
+           "{a,B,1,-,_}.",
+    "C06": "naming axis (outer resource named by absolute / relative path, bare name, file:/// and file:/ URL, dot segments, "
+           "through a symbolic link to the file / to its directory; fragments stored as symbolic links), %import lines in "
+           "the seed alphabet (398 texts over two generated packages, every cut set), 74 control / non-ASCII characters "
+           "inside values, comments, %define values and section names.",
+    "C07": "validator file sequences: 161 file kinds (heads: %import of six components and packages, %define, %include of a "
+           "valid / invalid / importing resource; 7 bodies), all singles, all ordered pairs, all triples over a sub-alphabet "
+           "(thorough: 84^3 triples, 18^4 quadruples); status and exact stderr against each file judged alone; every pair "
+           "also through one shared ConfigLoader (error family only).",
+    "C08": "addressing axis: 7 ways of opening the main resource (URL argument, loadURL, URL from file.name; no URL, '', "
+           "<stdin>) x relative / absolute %include references x all 32 base fault kinds at every line; line-shape axis: 11 "
+           "key-line fault families x 2 key spellings x 7 value shapes (bare key, trailing blanks, literal, inner blanks, "
+           "'$$', defined name, name with empty value).",
+    "C10": "prefix axis: every combination of five prefix positions (354) x every datatype-bearing attribute (14-17 slots, the "
+           "prefix-bearing element itself included) x 15 names, each resolving under exactly one level or under all, in three "
+           "layouts (one schema; types in an imported component; a base schema file), judged by a reference written from the "
+           "documentation (vz/ref/schemaprefix.py).",
+    "C11": "inherited children whose attribute differs from their key name x one added child over every (kind, key name, "
+           "attribute) of the pool of occupied names (6 036 / 53 744 schemas); import graphs with back edges (every package "
+           "imports every list <= 2 over all three packages, itself included, imports before / after its own types; %import "
+           "texts entering the same graphs); schema-extends set-ups of up to 3 base documents x key type per document with "
+           "capitalised names and '+' defaults (564).",
+    "C12": "spellings and sites of a component reference: 6 spellings (package alone, file='component.xml', another file of the "
+           "package, dotted sub-package, prefix-relative, missing file) x 4 sites (<import> in the schema, inside an imported "
+           "component, in a schema taken over with <import src>, %import in the text), every sequence of <= 2 schema-level "
+           "references x own / src abstract type (235 / 1 099 schema variants).",
+    "C13": "datatype-name axis: 28 more operations (%import of a generated component whose key / section-type datatype name has "
+           "one of 14 shapes: stock, stock in another case, dotted known / new / prefix-relative, every suffix and prefix of "
+           "the new dotted name, last component of a known name, unresolvable, other case), all sequences <= 3 (thorough 4 "
+           "below core prefixes), fresh-schema differential plus a model of the registry's memo.",
+    "C14": "finishing variants of every schema (schema / section datatypes: none, two distinguishable wrappers, one refusing a "
+           "marked value; handlers on the schema and on every item: 5 quick / 13 thorough) with the outcome = value tree + what "
+           "the handler object delivers; a top-level key with a default in every schema (override of a key absent from the "
+           "text).",
+    "C15": "whitespace axis: every string over {SP, TAB, CR, FF, U+2003} (singles, pairs; thorough 11 characters, triples) "
+           "before / after every non-blank line, blank-line contents and comment forms at every position, last line "
+           "terminated or not (thorough also CRLF); derivation axis: containers that inherit named keys / a wildcard from a "
+           "base type under another key type (18 / 27 variants, 126 / 1 782 schemas).",
+    "C16": "where an item is declared: handler-bearing items inherited through extends (one / two steps, own key type, split "
+           "between base and derived; 296 / 11 088 schemas); what the loader object served before: ConfigLoader and "
+           "ExtendedConfigLoader serve a prior text (ancestors of the text, the text plus a late fault behind closed / inside "
+           "open sections) before the text; %import sessions (import, plain, import, failing import, plain) on one loader.",
+    "C17": "every code point also at the start of a key line that is not the first line of the text but becomes the first line "
+           "of its serialisation.",
+    "C19": "every fault point also with an exception that is not an Exception (BaseException subclass).",
+    "C20": "part (h): 1-3 handler sections assigned to files by every set partition (sections sharing a path), each handler "
+           "unused or used (a record logged at every factory call), all operation sequences to length 3-4 (thorough 4-5) and "
+           "a breadth-first search to depth 4 (6) over 150 configurations, against a registry model with use().",
+}
+for _k, _v in WAVE5.items():
+    CHECKS[_k]["text"] = CHECKS[_k]["text"].rstrip() + " Wave 5: " + _v
+
 NOT_APPLICABLE = {}
 
 
